@@ -448,8 +448,18 @@ func (g *generator) walkObject(schema *schemaparser.Schema) (ast.Type, error) {
 	}
 
 	// TODO: finish implementation
+	// properties are walked in a consistent order: walking one might declare
+	// definitions, and the first definition declared under a given name wins.
+	propertyNames := make([]string, 0, len(schema.Properties))
+	for name := range schema.Properties {
+		propertyNames = append(propertyNames, name)
+	}
+	sort.Strings(propertyNames)
+
 	fields := make([]ast.StructField, 0, len(schema.Properties))
-	for name, property := range schema.Properties {
+	for _, name := range propertyNames {
+		property := schema.Properties[name]
+
 		fieldDef, err := g.walkDefinition(property)
 		if err != nil {
 			return ast.Type{}, fmt.Errorf("%s: %w", name, err)
